@@ -1,6 +1,7 @@
 #!/bin/bash
 # usage: tools/seed_save.sh <name> <mutdir> <property> "<needs>" "<result line>"
 name="$1"; mdir="$2"; prop="$3"; needs="$4"; result="$5"
+[ -n "$name" ] && [ -d "$mdir" ] || { echo "usage: seed_save.sh <name> <mutdir> <property> <needs> <result>"; exit 2; }
 d=/verif/seeded/$name
 mkdir -p $d
 cp $mdir/patch.diff $d/
